@@ -202,10 +202,14 @@ func (s *SourceControl) ConfigureRoachSource(args *RoachSourceConfig, reply *boo
 // run the closure f at an appropriate point in the data handling cycle
 // and return any error sent on s.queuedRequests.
 func (s *SourceControl) runLaterIfActive(f func()) error {
+	verifPoint("rpc.enter")
 	if !s.isSourceActive {
+		verifPoint("rpc.notActive")
 		return fmt.Errorf("no source is active")
 	}
+	verifPoint("rpc.beforeSend")
 	s.queuedRequests <- f
+	verifPoint("rpc.sent")
 	return <-s.queuedResults
 }
 
